@@ -255,6 +255,7 @@ class Contracts:
         self.ghostglobals = {}
         self.ghostmaps = {}
         self.ghostprocs = {}
+        self.threadlocal_fields = set()
         self.pures = {}       # name -> (params [(n,t)], rettype, ast, text)
         self.lockwords = []
         self.couples = []
@@ -268,8 +269,11 @@ class Contracts:
         rest = toks[1] if len(toks) > 1 else ''
         if kw == 'ghost':
             body = ' '.join([rest] + [l.strip() for l in lines[1:]])
-            m = re.match(r'field\s+([\w.]+)\s+(\S+)', body)
-            if m: self.ghostfields[m.group(1)] = m.group(2); return
+            m = re.match(r'field\s+([\w.]+)\s+(\S+)(\s+threadlocal)?', body)
+            if m:
+                self.ghostfields[m.group(1)] = m.group(2)
+                if m.group(3): self.threadlocal_fields.add(m.group(1))
+                return
             m = re.match(r'global\s+(\w+)\s+(\S+)', body)
             if m: self.ghostglobals[m.group(1)] = m.group(2); return
             m = re.match(r'map\s+(\w+)\s+(\S+)', body)
@@ -294,7 +298,7 @@ class Contracts:
             rt = m.group(3) or 'bool'
             self.pures[m.group(1)] = (ps, rt, parse_expr(m.group(4)), m.group(4))
             return
-        if kw in ('lockword', 'onceword', 'monotone'):
+        if kw in ('lockword', 'onceword', 'monotone', 'nonzero'):
             self.lockwords.append((kw, ' '.join([rest] + [l.strip() for l in lines[1:]]), src)); return
         if kw == 'couple':
             self.couples.append((' '.join([rest] + [l.strip() for l in lines[1:]]), src)); return
